@@ -6,7 +6,7 @@ from ..link import run_e3, gen_events
 ID = "C09"
 LEVEL = "exploration"
 ENGINE = "E3"
-QUICK_RUNS = 30000
+QUICK_RUNS = 26000
 THOROUGH_RUNS = 3000000
 QUICK_WALL = 100
 THOROUGH_WALL = 900
@@ -67,7 +67,7 @@ def generate(tape, tier="quick"):
             tail = [a for a in chain if a["kind"] in ("scale", "callback")][:1]
             spec = {"chain": [dict(a) for a in cons[b]["chain"][:k]] + tail, "shared_with": b, "shared_len": k}
         cons.append(spec)
-    n_events = tape.weighted([(12, 4), (25, 4), (45, 2), (60, 1)])
+    n_events = tape.weighted([(12, 16), (25, 16), (45, 8), (60, 4), (400, 1)])        # now and then a long history
     if tier == "thorough" and tape.chance(1, 400):
         n_events = tape.choice([500, 1000, 2000])
     # consumers without a delay adapter on their chain: a request beyond the newest publication is refused and
